@@ -16,7 +16,7 @@
     structure_preserved_markup_strip_partial markup_attr_newline_normalised reread_tree
     reread_rawtext_nostrip structure_preserved_rawtext_partial rawtext_covers_plain_templates
     rawtext_spec_is_plain_spec rawtext_no_etago_needed rawtext_etago_closes_element rawtext_site_not_escaped
-    reader_raw_mode_runs_to_etago
+    reader_raw_mode_runs_to_etago structure_preserved_rawtext_as_written
 -/
 import Genshi.Lemmas.Subst
 import Genshi.Lemmas.SubstTmpl
@@ -864,6 +864,22 @@ theorem structure_preserved_rawtext_partial (m : Method) (T : List Subst.Node) (
     (hT : nodesOkR m env T = true) (hdom : listOk env T = true) (henv : EnvOk env) :
     readDoc m (serialize m false (renderList env T)) = some (coalesceR m (expectedListR m env T)) :=
   readDoc_render_rawtext m env T hT hdom henv
+
+/-- … and the same for the loops AS THEY ARE WRITTEN (per-render event cache, `noescape` flag: `serializeC`, what the driver
+    runs against the real code): the rendered stream of such a template keeps raw-text elements free of element children
+    (`rawLeafGo`, the hypothesis of `escaping_by_enclosing_elements`), so which of its texts are written raw is decided by the
+    innermost open element alone (`serEncl`, no flag, no cache), and re-reading gives the specification. -/
+theorem structure_preserved_rawtext_as_written (m : Method) (T : List Subst.Node) (env : Env)
+    (hT : nodesOkR m env T = true) (hdom : listOk env T = true) (henv : EnvOk env) :
+    rawLeafGo m [] (emptyTags (renderList env T)) = true ∧
+    serializeC m false (renderList env T) = serEncl m [] (emptyTags (renderList env T)) ∧
+    readDoc m (serializeC m false (renderList env T)) = some (coalesceR m (expectedListR m env T)) := by
+  have hleaf := render_rawLeaf m env T hT hdom henv
+  refine ⟨hleaf, ?_, ?_⟩
+  · have := escaping_by_enclosing_elements m (emptyTags (renderList env T)) hleaf
+    simpa [serializeC] using this
+  · rw [cache_unobservable]
+    exact readDoc_render_rawtext m env T hT hdom henv
 
 /-- `<div><script type="…">var a = "${v0}" ; ${v1}</script><p title="${v0}">${v1}</p></div><style/>` with
     `v0 = a<b&`, `v1 = Markup('&amp;')`: inside the script both strings as they are, outside the values verbatim -/
